@@ -10,6 +10,7 @@ import (
 	"path/filepath"
 	"sort"
 	"strings"
+	"time"
 
 	"github.com/chrislusf/seaweedfs/weed/storage"
 	"github.com/chrislusf/seaweedfs/weed/storage/erasure_coding"
@@ -140,13 +141,14 @@ func readFile(p string) []byte {
 }
 
 type ecOp struct {
-	kind int // 0 del, 1 find, 2 snap
+	kind int // 0 del, 1 find, 2 snap, 3 reopen (Close + NewEcVolume)
 	key  uint64
 }
 type sOp struct {
-	del bool
-	key uint64
-	off uint64
+	del    bool
+	key    uint64
+	off    uint64
+	reopen int // 1: reopen with a fresh .sdx (kept), 2: with a stale one (regenerated)
 }
 
 type caseIn struct {
@@ -203,6 +205,14 @@ func runCase(out *hx.Out, in caseIn) {
 			}
 			obs = append(obs, fmt.Sprintf("OSnap %s %s", hx.Bytes(readFile(base+".ecx")), hx.Bytes(ecj)))
 			canon = append(canon, "S")
+		case 3:
+			ev.Close()
+			ev, err = erasure_coding.NewEcVolume(types.HardDriveType, dir, dir, "", needle.VolumeId(1))
+			hx.Must(err)
+			ops = append(ops, "Reopen")
+			obs = append(obs, "OReopen")
+			canon = append(canon, "R")
+			out.Count("ec:reopen", 1)
 		}
 	}
 	ev.Close()
@@ -233,6 +243,28 @@ func runCase(out *hx.Out, in caseIn) {
 	sdx0 := readFile(base3 + ".sdx")
 	var sops, sobs []string
 	for _, o := range in.sops {
+		if o.reopen != 0 {
+			// Close, then NewSortedFileNeedleMap on the existing .idx/.sdx; the freshness test
+			// compares mtimes, which the harness sets explicitly (both branches are reached)
+			sm.Close()
+			t0 := time.Unix(1600000000, 0)
+			if o.reopen == 1 {
+				hx.Must(os.Chtimes(base3+".idx", t0, t0))
+				hx.Must(os.Chtimes(base3+".sdx", t0.Add(time.Hour), t0.Add(time.Hour)))
+			} else {
+				hx.Must(os.Chtimes(base3+".sdx", t0, t0))
+				hx.Must(os.Chtimes(base3+".idx", t0.Add(time.Hour), t0.Add(time.Hour)))
+			}
+			idxFile, err = os.OpenFile(base3+".idx", os.O_RDWR, 0644)
+			hx.Must(err)
+			sm, err = storage.NewSortedFileNeedleMap(base3, idxFile)
+			hx.Must(err)
+			sops = append(sops, fmt.Sprintf("SReopen %s", hx.Bool(o.reopen == 1)))
+			sobs = append(sobs, fmt.Sprintf("OSReopen %s", hx.Bytes(readFile(base3+".sdx"))))
+			canon = append(canon, fmt.Sprintf("sr%d", o.reopen))
+			out.Count(fmt.Sprintf("sorted:reopen:%d", o.reopen), 1)
+			continue
+		}
 		if o.del {
 			e := sm.Delete(types.NeedleId(o.key), mkOffset(o.off))
 			sops = append(sops, fmt.Sprintf("SDel %s %s", n(o.key), n(o.off)))
@@ -255,7 +287,7 @@ func runCase(out *hx.Out, in caseIn) {
 	sidx := readFile(base3 + ".idx")
 	sdx := readFile(base3 + ".sdx")
 
-	term := fmt.Sprintf("{| c_osz := %s; c_ecx := %s; c_ecj := %s; c_ops := %s; c_idx := %s; c_sops := %s; "+
+	term := fmt.Sprintf("CFile {| c_osz := %s; c_ecx := %s; c_ecj := %s; c_ops := %s; c_idx := %s; c_sops := %s; "+
 		"i_obs := %s; i_rebuilt := (%s, %s); i_ecj_removed := %s; i_idx := %s; i_sdx0 := %s; i_sobs := %s; i_sidx := %s; i_sdx := %s |}",
 		hx.N(uint64(types.OffsetSize)), hx.Bytes(in.ecx), hx.Bytes(in.ecj), hx.List(ops), hx.Bytes(in.idx), hx.List(sops),
 		hx.List(obs), errClass(rerr), hx.Bytes(rebuilt), hx.Bool(removed), hx.Bytes(idxOut), hx.Bytes(sdx0), hx.List(sobs),
@@ -332,6 +364,18 @@ func genSorted(r *hx.Rng, wantLiveDelete bool) ([]byte, []sOp) {
 		sops = append(sops, sOp{del: true, key: k, off: genOff(r)})
 		sops = append(sops, sOp{key: k})
 	}
+	// reopen the map over the modified files (1 case in 2): kept .sdx or regenerated .sdx,
+	// then every key again, another delete, and possibly a second reopen
+	if r.Chance(1, 2) {
+		for round := 0; round < r.Range(1, 2); round++ {
+			sops = append(sops, sOp{reopen: r.Range(1, 2)})
+			for _, k := range keys {
+				sops = append(sops, sOp{key: k})
+			}
+			k := r.PickU64(keys[:10])
+			sops = append(sops, sOp{del: true, key: k, off: genOff(r)}, sOp{key: k})
+		}
+	}
 	for _, k := range keys[:10] {
 		sops = append(sops, sOp{key: k})
 	}
@@ -340,7 +384,7 @@ func genSorted(r *hx.Rng, wantLiveDelete bool) ([]byte, []sOp) {
 
 func main() {
 	out := hx.Flags("C07", 300)
-	out.Rule = "each case: a generated .ecx (0..40 strictly sorted entries over keys 1..30 plus far keys 2^32-1,2^32,2^32+5,2^40,2^63,2^64-1; offsets up to the build's maximum, sizes incl. 0, 2^31-1, tombstone and other negatives; 1 in 10 malformed: unsorted/duplicate keys, zero offset, trailing partial entry), optional initial journal (1 in 6; 1 in 12 with a partial record), then for indexes of <= 8 entries EVERY present key and every neighbour key (k-1,k+1,0,2^64-1) deleted in turn with Find before/after and a byte snapshot of .ecx/.ecj after each delete, for larger indexes a random third of those keys; finally Find of every probe key and a snapshot; RebuildEcxFile on the original .ecx with the final journal; WriteIdxFileFromEcIndex; plus a SortedFileNeedleMap over a generated .idx (1..12 puts/overwrites/tombstones in any key order) with Get of 16 keys and 1..4 Deletes (live keys included in 3 cases out of 4), each followed by a Get; the final .idx and .sdx are compared byte for byte. First three cases are fixed witnesses. non-trivial = well-formed index with at least one delete of a present key; distinct = canonical bytes + op list"
+	out.Rule = "each case: a generated .ecx (0..40 strictly sorted entries over keys 1..30 plus far keys 2^32-1,2^32,2^32+5,2^40,2^63,2^64-1; offsets up to the build's maximum, sizes incl. 0, 2^31-1, tombstone and other negatives; 1 in 10 malformed: unsorted/duplicate keys, zero offset, trailing partial entry), optional initial journal (1 in 6; 1 in 12 with a partial record), then for indexes of <= 8 entries EVERY present key and every neighbour key (k-1,k+1,0,2^64-1) deleted in turn with Find before/after and a byte snapshot of .ecx/.ecj after each delete, for larger indexes a random third of those keys; finally Find of every probe key and a snapshot; RebuildEcxFile on the original .ecx with the final journal; WriteIdxFileFromEcIndex; plus a SortedFileNeedleMap over a generated .idx (1..12 puts/overwrites/tombstones in any key order) with Get of 16 keys and 1..4 Deletes (live keys included in 3 cases out of 4), each followed by a Get; the final .idx and .sdx are compared byte for byte. Every map is reopened in half of the cases (Close + NewSortedFileNeedleMap with the .sdx mtime set after or before the .idx mtime: kept / regenerated .sdx), followed by Get of every key and another Delete; the EC volume is closed and reopened (NewEcVolume) after 1 delete in 6. One case in 6 is a VOLUME case: a real volume (3..10 writes/overwrites/deletes over keys 1..5 and 2^32+5, payloads 1..70 bytes) is encoded with the real WriteEcFiles + WriteSortedFileFromIdx, mounted as an EC volume in a Store, 0..4 keys (written, deleted, never written) deleted through the real VolumeServer.VolumeEcBlobDelete, every key read with Store.ReadEcShardNeedle after every step, Store reopen / RebuildEcxFile in between, then the real VolumeServer.VolumeEcShardsToVolume, mount of the decoded volume by a new Store and a read of every key. First four cases are fixed witnesses (the fourth: finding 0 on a real volume). non-trivial = well-formed index with at least one delete of a present key; distinct = canonical bytes + op list"
 	root := hx.NewRng(out.Seed)
 	out.Extra["offset_size"] = types.OffsetSize
 	out.Extra["entry_size"] = types.NeedleMapEntrySize
@@ -367,8 +411,15 @@ func main() {
 		runCase(out, caseIn{ecx: encEntries(big), ops: ops, idx: plainIdx, sops: []sOp{{key: 1}}, kind: "witness-all-keys"})
 	}
 
+	// 3: the witness of finding 0 on a real volume (decode with an empty journal, then mount)
+	volWitness(out)
+
 	for i := out.Len(); i < out.N; i++ {
 		r := root.Fork()
+		if i%6 == 5 {
+			volRandom(out, r)
+			continue
+		}
 		var n int
 		switch r.Intn(10) {
 		case 0:
@@ -437,6 +488,9 @@ func main() {
 			}
 			if r.Chance(1, 10) { // delete the same key again
 				ops = append(ops, ecOp{0, k})
+			}
+			if r.Chance(1, 6) { // volume server restart: Close + NewEcVolume on the modified files
+				ops = append(ops, ecOp{3, 0}, ecOp{1, k})
 			}
 		}
 		for _, k := range probes {
